@@ -355,6 +355,24 @@ impl<'a> VisitMut for Rewriter<'a> {
         if let Some(r) = replaced {
             *e = r;
         }
+        // R4': `X[a..].iter()` ⇒ `vx_iter_from(&X, a)`
+        let mut r4p: Option<Expr> = None;
+        if let Expr::MethodCall(m) = e {
+            if m.method == "iter" && m.args.is_empty() {
+                if let Expr::Index(ix) = &*m.receiver {
+                    if let Expr::Range(r) = &*ix.index {
+                        if let (Some(a), None, RangeLimits::HalfOpen(_)) = (&r.start, &r.end, &r.limits) {
+                            let x = &ix.expr;
+                            r4p = Some(parse_quote! { vx_iter_from(&#x, #a) });
+                        }
+                    }
+                }
+            }
+        }
+        if let Some(r) = r4p {
+            self.fired.push("R4'-tail-slice-iter".into());
+            *e = r;
+        }
         // method renames (R4) and effect threading (R6)
         if let Expr::MethodCall(m) = e {
             let name = m.method.to_string();
@@ -444,6 +462,7 @@ pub fn apply_all(block: &mut Block, item: &Value, fired: &mut Vec<String>, name:
 struct Marker {
     f: String,
     k: usize,
+    ck: usize,
     renames: HashMap<String, String>,
 }
 
@@ -537,6 +556,17 @@ impl VisitMut for Marker {
         visit_mut::visit_expr_mut(self, e);
     }
     fn visit_expr_closure_mut(&mut self, c: &mut ExprClosure) {
+        // R8: closure bodies become blocks that start with a marker, so that an overlay can replace the header
+        let k = self.ck;
+        self.ck += 1;
+        let m = mac_stmt("vx_closure_head", &self.f, Some(k));
+        let body = (*c.body).clone();
+        let mut blk: Block = match body {
+            Expr::Block(b) if b.label.is_none() && b.attrs.is_empty() => b.block,
+            e => parse_quote! { { #e } },
+        };
+        blk.stmts.insert(0, m);
+        *c.body = Expr::Block(ExprBlock { attrs: vec![], label: None, block: blk });
         visit_mut::visit_expr_closure_mut(self, c);
     }
 }
@@ -551,14 +581,23 @@ impl Marker {
 struct Renamer<'a>(&'a HashMap<String, String>);
 impl<'a> VisitMut for Renamer<'a> {
     fn visit_ident_mut(&mut self, i: &mut Ident) {
-        if let Some(n) = self.0.get(&i.to_string()) {
+        let s = i.to_string();
+        if let Some(n) = self.0.get(&s) {
             *i = Ident::new(n, i.span());
+        } else if let Some(raw) = s.strip_prefix("r#") {
+            // R13: raw identifiers (`r#fn`) are renamed; Verus leaks them into SMT-LIB unescaped
+            *i = Ident::new(&format!("vx_raw_{}", raw), i.span());
         }
     }
 }
 
+pub fn rename_raw_file(f: &mut File) {
+    let m = HashMap::new();
+    Renamer(&m).visit_file_mut(f);
+}
+
 pub fn mark(block: &mut Block, fn_name: &str) {
-    let mut m = Marker { f: fn_name.to_string(), k: 0, renames: HashMap::new() };
+    let mut m = Marker { f: fn_name.to_string(), k: 0, ck: 0, renames: HashMap::new() };
     m.visit_block_mut(block);
     Renamer(&m.renames).visit_block_mut(block);
     // fn head / end markers
